@@ -102,14 +102,15 @@ def to_encoding(x, enc):
 
 
 def write_h5ad(path, x, cells, genes, enc='csr', layer=None, obs_cols=None, var_cols=None,
-               uns=None, rechunk=None, x_placeholder=None, obs_index_name=None, var_index_name=None):
+               uns=None, rechunk=None, x_placeholder=None, obs_index_name=None, var_index_name=None,
+               extra_layers=None):
     """write an h5ad; the matrix goes to X or to layers/<layer> (X then holds a placeholder);
     a named obs / var index is stored by anndata under that name (not as '_index')"""
     obs = pd.DataFrame(obs_cols or {}, index=pd.Index([str(c) for c in cells], name=obs_index_name))
     var = pd.DataFrame(var_cols or {}, index=pd.Index([str(g) for g in genes], name=var_index_name))
     m = to_encoding(x, enc)
     if layer is None:
-        a = anndata.AnnData(X=m, obs=obs, var=var, uns=uns)
+        a = anndata.AnnData(X=m, obs=obs, var=var, uns=uns, layers=extra_layers or None)
     else:
         ph = x_placeholder if x_placeholder is not None else np.zeros(x.shape, dtype=np.float32)
         a = anndata.AnnData(X=ph, obs=obs, var=var, layers={layer: m}, uns=uns)
